@@ -1054,6 +1054,8 @@ impl AccessControlsWriteTransaction<'_> {
     }
 
     pub fn commit(self) -> Result<(), OperationError> {
+        #[cfg(feature = "verif-hooks")]
+        crate::verif_hooks::c06::pause(crate::verif_hooks::c06::W_ACP);
         self.inner.commit();
 
         Ok(())
@@ -1164,6 +1166,8 @@ impl AccessControls {
     }
 
     pub fn read(&self) -> AccessControlsReadTransaction<'_> {
+        #[cfg(feature = "verif-hooks")]
+        crate::verif_hooks::c06::pause(crate::verif_hooks::c06::R_ACP);
         AccessControlsReadTransaction {
             inner: self.inner.read(),
             // acp_related_search_cache: Cell::new(self.acp_related_search_cache.read()),
